@@ -1,0 +1,76 @@
+// Copyright The Prometheus Authors
+// Licensed under the Apache License, Version 2.0 (the "License");
+// you may not use this file except in compliance with the License.
+// You may obtain a copy of the License at
+//
+// http://www.apache.org/licenses/LICENSE-2.0
+//
+// Unless required by applicable law or agreed to in writing, software
+// distributed under the License is distributed on an "AS IS" BASIS,
+// WITHOUT WARRANTIES OR CONDITIONS OF ANY KIND, either express or implied.
+// See the License for the specific language governing permissions and
+// limitations under the License.
+
+//go:build verif
+
+package silence
+
+import (
+	"fmt"
+)
+
+// VerifCheckInvariants walks the internal indexes under the store's own lock
+// and reports disagreements between the state map, the matcher index and the
+// version index. Only compiled with the "verif" build tag; there are no call
+// sites in the package.
+func (s *Silences) VerifCheckInvariants() []string {
+	s.mtx.RLock()
+	defer s.mtx.RUnlock()
+
+	var problems []string
+	seen := make(map[string]int, len(s.vi))
+	last := 0
+	for i, sv := range s.vi {
+		seen[sv.id]++
+		if sv.version < last {
+			problems = append(problems, fmt.Sprintf("version index not sorted at %d: %d after %d", i, sv.version, last))
+		}
+		last = sv.version
+		if sv.version > s.version {
+			problems = append(problems, fmt.Sprintf("version index entry %s has version %d > store version %d", sv.id, sv.version, s.version))
+		}
+		if _, ok := s.st[sv.id]; !ok {
+			problems = append(problems, fmt.Sprintf("version index entry %s missing from state", sv.id))
+		}
+	}
+	for id, n := range seen {
+		if n != 1 {
+			problems = append(problems, fmt.Sprintf("silence %s appears %d times in the version index", id, n))
+		}
+	}
+	for id, ms := range s.st {
+		if ms.Silence == nil || ms.Silence.Id != id {
+			problems = append(problems, fmt.Sprintf("state key %s holds silence with other id", id))
+			continue
+		}
+		if _, ok := seen[id]; !ok {
+			problems = append(problems, fmt.Sprintf("silence %s in state but not in the version index", id))
+		}
+		if _, ok := s.mi[id]; !ok {
+			problems = append(problems, fmt.Sprintf("silence %s in state but not in the matcher index", id))
+		}
+	}
+	for id := range s.mi {
+		if _, ok := s.st[id]; !ok {
+			problems = append(problems, fmt.Sprintf("matcher index entry %s missing from state", id))
+		}
+	}
+	return problems
+}
+
+// VerifCacheLen returns the number of entries of the silencer's per-alert cache.
+func (s *Silencer) VerifCacheLen() int {
+	s.cache.mtx.RLock()
+	defer s.cache.mtx.RUnlock()
+	return len(s.cache.entries)
+}
